@@ -9,9 +9,10 @@ ID = 'C17'
 PROPS_FILE = 'theories/Props/C17.v'
 PROPS_MODULE = 'Props.C17'
 COQ_TARGETS = ['theories/Extract/ExtractC17.vo']
-REQUIRED_THEOREMS = ['C17_prefix', 'C17_once', 'C17_same_order', 'C17_lazy', 'C17_no_lost_wakeup', 'C17_progress',
-                     'C17_sync_prefix', 'C17_sync_once', 'C17_sync_same_order', 'C17_sync_lazy',
-                     'C17_request_refines']
+REQUIRED_THEOREMS = ['C17_schedules_reachable', 'C17_prefix', 'C17_once', 'C17_same_order', 'C17_lazy', 'C17_lazy_depth',
+                     'C17_lazy_single_end_pull_refuted', 'C17_no_lost_wakeup', 'C17_progress', 'C17_request_refines',
+                     'C17_sync_histories_reachable', 'C17_sync_prefix', 'C17_sync_once', 'C17_sync_same_order', 'C17_sync_lazy',
+                     'C17_sync_request_refines']
 MODEL = 'c17'
 HARNESS_BINS = ['cache_run']
 ANCHORS = ['fluent-fallback/src/cache.rs', 'fluent-fallback/src/bundles.rs', 'fluent-fallback/src/lib.rs']
@@ -31,7 +32,9 @@ ASSUMPTIONS = [
 ]
 RULE = ('async: k concurrent format_value / format_values / format_messages futures of chosen fallback depths over a scripted source '
         '(ready / pending / end), polled in a scripted order with own wakers, spurious polls included, then a fair drain; '
-        'bounded-exhaustive over all schedules to completion (k<=2, script<=3, <=2 spurious polls in quick; k<=3, script<=4 in thorough) '
+        'bounded-exhaustive over all schedules to completion without no-op steps (quick: k<=2 requests x scripts of length<=4 x <=2 spurious '
+        'polls; thorough: k<=2 x script<=5 x <=2 spurious, k=3 x script<=3 x <=2 spurious, k=3 x script<=4 x <=1 spurious), every 5th/11th '
+        'also cut at a random prefix and finished by the fair drain, '
         'plus random longer ones; sync: all short request sequences; via Bundles::new and via Localization::bundles. '
         'non-trivial = a request was suspended at least once or the run is synchronous; distinct = distinct implementation outputs')
 
@@ -159,37 +162,40 @@ def goal_of(cons):
     return max(cons[1:])
 
 
+def exhaustive_async(k, lmax, spur, pick_via):
+    cases = []
+    for L in range(0, lmax + 1):
+        for script in itertools.product('rp', repeat=L):
+            m = script.count('r')
+            gchoices = list(range(m)) + [END]
+            for goals in itertools.product(gchoices, repeat=k):
+                for j, sched in enumerate(schedules(script, list(goals), spur, 10 ** 9)):
+                    via = b'loc' if (j + L + k) % 4 == 0 else b'bundles'
+                    cons = [consumer(i, g) for i, g in enumerate(goals)]
+                    cases.append(mk_case(b'async', via, cons, script, sched))
+    return cases
+
+
 def generate(rng, tier):
     quick = tier == 'quick'
-    # ---- bounded-exhaustive, async --------------------------------------------------------------
-    kmax, lmax = (2, 3) if quick else (3, 4)
-    cap_per = 400 if quick else 1500
-    cases = []
-    nsched = 0
-    for k in range(1, kmax + 1):
-        for L in range(0, lmax + 1):
-            if not quick and k == 3 and L > 3:
-                continue
-            for script in itertools.product('rp', repeat=L):
-                m = script.count('r')
-                gchoices = list(range(m)) + [END]
-                for goals in itertools.product(gchoices, repeat=k):
-                    for spur in ([2] if k < 3 else [1]):
-                        ss = schedules(script, list(goals), spur, cap_per)
-                        nsched += len(ss)
-                        for j, sched in enumerate(ss):
-                            via = b'loc' if (j + L + k) % 4 == 0 else b'bundles'
-                            cons = [consumer(i, g) for i, g in enumerate(goals)]
-                            cases.append(mk_case(b'async', via, cons, script, sched))
-    yield ('exhaustive-async-k%d-script%d' % (kmax, lmax), cases)
+    # ---- bounded-exhaustive, async: ALL schedules to completion (no no-op steps) ----------------------
+    #   quick:    k <= 2 requests x scripts of length <= 4 x <= 2 spurious polls
+    #   thorough: k <= 2 x scripts <= 5 x <= 2 spurious;  k = 3 x scripts <= 3 x <= 2 spurious;  k = 3 x scripts <= 4 x <= 1 spurious
+    plan = [(1, 4, 2), (2, 4, 2)] if quick else [(1, 6, 3), (2, 5, 2), (3, 3, 2), (3, 4, 1)]
+    allc = []
+    for (k, lmax, spur) in plan:
+        cases = exhaustive_async(k, lmax, spur, None)
+        allc.append(cases)
+        yield ('exhaustive-async-k%d-script%d-spurious%d' % (k, lmax, spur), cases)
     # schedule prefixes: the fair drain has to finish the job from every intermediate state
     pref = []
-    for c in cases[::7 if quick else 3]:
-        x = sexp.loads(c)
-        if len(x[5]) >= 2:
-            cut = rng.randrange(0, len(x[5]))
-            x[5] = x[5][:cut]
-            pref.append(sexp.dumps(x))
+    for cases in allc:
+        for c in cases[::5 if quick else 11]:
+            x = sexp.loads(c)
+            if len(x[5]) >= 2:
+                cut = rng.randrange(0, len(x[5]))
+                x[5] = x[5][:cut]
+                pref.append(sexp.dumps(x))
     yield ('prefix-then-drain', pref)
     # ---- bounded-exhaustive, sync: all request sequences -------------------------------------------
     cases = []
@@ -201,7 +207,7 @@ def generate(rng, tier):
                     cases.append(mk_case(b'sync', via, cons, 'r' * m, []))
     yield ('exhaustive-sync-requests', cases)
     # ---- random, longer ------------------------------------------------------------------------------
-    n = 4000 if quick else 60000
+    n = 6000 if quick else 100000
     cases = []
     for _ in range(n):
         k = rng.randint(1, 5)
